@@ -8,8 +8,9 @@
         (result 0 for Set/Compact/bulk; for a bulk call only the state at its end).
 
     Domain (anything else is VBad = generator error): o a multiple of 64 in
-    [0, 2^40]; indices in [-2^40, 2^40] and less than Offset + 2^22 (bounded
-    growth); probes 0 <= j < Offset + 64*len(Words) of the state they are
+    [-2^40, 2^40] (negative offsets and indices included: Go's idx&63 and idx>>6 on negative
+    int64 are Z.land and Z.shiftr); indices in [-2^40, 2^40] and less than Offset + 2^22 (bounded
+    growth); probes -2^40 <= j < Offset + 64*len(Words) of the state they are
     applied to; bulk ranges of at most 2^17 indices. *)
 From Coq Require Import ZArith List Bool String.
 From Low Require Import Lib.Bits Lib.BitSeq Lib.Val Model.TailBitmap Spec.TailBitmapSpec.
@@ -41,13 +42,13 @@ Definition pop_in_domain (s : tb) (p : pop) : bool :=
   match p with
   | PSet idx => idx_in_domain s idx
   | PCompact => true
-  | PGet j | PGet1 j => (0 <=? j) && (j <? Offset s + 64 * zlen (Words s))
+  | PGet j | PGet1 j => (- BIG <=? j) && (j <? Offset s + 64 * zlen (Words s))
   | PSetUp f t | PSetDown f t =>
       (f <=? t) && (t - f <=? 2^17) && idx_in_domain s f && idx_in_domain s t
   end.
 
 Definition offset_in_domain (o : Z) : bool :=
-  (0 <=? o) && (o <=? BIG) && (o mod 64 =? 0).
+  (- BIG <=? o) && (o <=? BIG) && (o mod 64 =? 0).
 
 Inductive outcome : Type :=
 | OBad
